@@ -609,6 +609,7 @@ def run(ctx, rep):
     from rules.C03 import check_explicit_bond_symbols
     check_explicit_bond_symbols(ctx, rep, "K5")
     check_prune_table(ctx, rep, ds_field)
+    check_vertices_are_kept(ctx, rep, "K8")
 
 
 # ----------------------------------------------------------------------------- K6 pruning decision table
@@ -629,6 +630,9 @@ PRUNE_SPEC = [
     (("O", 0, None, 2, 0), True, "o  (furan type)"),
     (("S", 0, None, 2, 0), True, "s  (thiophene type)"),
     (("P", 0, None, 2, 0), False, "p  (phosphinine type)"),
+    # half-integral bond sums (an odd number of aromatic bonds): the electron count must not lose the half bond
+    (("C", 0, 1, 1, 1), False, "[cH]-  with one aromatic and one explicit single ring bond"),
+    (("N", 0, 0, 3, 0), True, "[n]3  ring-fusion nitrogen (three aromatic bonds)"),
 ]
 
 
@@ -688,3 +692,104 @@ def check_prune_table(ctx, rep, ds_field):
     if n_dec < 10:
         raise AnalysisError("pruning decision table: only %d of %d standard atom kinds could be decided" % (n_dec, len(PRUNE_SPEC)))
     rep.floor("K6", 10)
+
+
+def check_vertices_are_kept(ctx, rep, RULE="K8"):
+    """K8: every atom that still needs a double bond is a vertex of the graph handed to the matcher -- also one that has no
+    kept neighbour left (the matching then fails and the SMILES is rejected; an atom left out would silently stay without its
+    double bond).  Structurally: the rows of the adjacency list are created one per element of the *kept-node collection*
+    (the set computed from the delocalised subgraph with the pruning predicate), in the function that builds the graph; a row
+    collection derived from anything else (e.g. the endpoints of the kept bonds) is reported."""
+    from rules.shared import resolve_local
+    M = ctx.fn("selfies.utils.matching_utils.find_perfect_matching")
+    K = ctx.fn(MG + ".kekulize")
+    cls = ctx.db.classes[MG]
+    # the pruning predicate: the private method of the class that kekulize's region uses as a filter over the subgraph
+    prune = cls.methods.get("_prune_from_ds")
+    if prune is None:
+        cands = [m for m in cls.methods.values() if m.name.startswith("_") and any(isinstance(r, ast.Return) and isinstance(r.value, ast.Constant)
+                                                                              and isinstance(r.value.value, bool) for r in own_nodes(m.node))
+                 and m.qual in set(ctx.cg.region(K)) and m is not K]
+        prune = cands[0] if len(cands) == 1 else None
+    if prune is None:
+        rep.note("pruning predicate not identified: K8 (every kept atom is a vertex) not decided")
+        return
+
+    def mentions_prune(e):
+        return any(isinstance(n, ast.Attribute) and n.attr == prune.name for n in ast.walk(e)) or \
+            any(isinstance(n, ast.Name) and n.id == prune.name for n in ast.walk(e))
+
+    def strip(e):
+        while isinstance(e, ast.Call) and unparse(e.func) in ("sorted", "list", "tuple", "set", "frozenset") and len(e.args) == 1 and not e.keywords:
+            e = e.args[0]
+        return e
+
+    def origin(g, e, depth=0):
+        """'kept' if expression e (in g) denotes the kept-node collection or an order / container change of it; a description
+        of what else it is otherwise; None when unknown"""
+        for _ in range(6):
+            e2 = strip(resolve_local(g, strip(e)))
+            if e2 is e:
+                break
+            e = e2
+        if mentions_prune(e) and isinstance(e, (ast.Call, ast.SetComp, ast.ListComp, ast.GeneratorExp)):
+            # set(filterfalse(prune, ds)) / {n for n in ds if not prune(n)}: the element must be the iterated node itself
+            if isinstance(e, (ast.SetComp, ast.ListComp, ast.GeneratorExp)):
+                return "kept" if isinstance(e.elt, ast.Name) and isinstance(e.generators[0].target, ast.Name) and e.elt.id == e.generators[0].target.id \
+                    else "a collection computed with the pruning predicate, but not of the nodes themselves"
+            return "kept"
+        if isinstance(e, ast.Name) and e.id in g.params and depth < 2:
+            outs = set()
+            for c in ctx.db.funcs.values():
+                for s_ in ctx.cg.sites(c):
+                    if g in s_.callees and isinstance(s_.node, ast.Call):
+                        pos = g.posparams[1:] if g.is_method else g.posparams
+                        arg = None
+                        if e.id in pos and pos.index(e.id) < len(s_.node.args):
+                            arg = s_.node.args[pos.index(e.id)]
+                        for kw in s_.node.keywords:
+                            if kw.arg == e.id:
+                                arg = kw.value
+                        outs.add(origin(c, arg, depth + 1) if arg is not None else None)
+            return outs.pop() if len(outs) == 1 else None
+        if isinstance(e, (ast.SetComp, ast.ListComp, ast.GeneratorExp)):
+            return "a collection derived from %s" % unparse(e.generators[0].iter)[:40]
+        return None
+    n = 0
+    for g in ctx.db.funcs.values():
+        if g.qual not in set(ctx.cg.region(K)) and g is not K:
+            continue
+        # rows: `[list() for _ in range(len(R))]`, `[[...] for node in R]`, or a loop appending one row per element of R
+        for nd in own_nodes(g.node):
+            R = None
+            if isinstance(nd, ast.ListComp) and len(nd.generators) == 1 and isinstance(nd.elt, (ast.List, ast.ListComp, ast.Call)):
+                it = nd.generators[0].iter
+                if isinstance(it, ast.Call) and unparse(it.func) == "range" and len(it.args) == 1 and isinstance(it.args[0], ast.Call) \
+                        and unparse(it.args[0].func) == "len" and it.args[0].args:
+                    R = it.args[0].args[0]
+                elif isinstance(nd.elt, (ast.List, ast.ListComp)):
+                    R = it
+            if R is None:
+                continue
+            # only the row list that reaches the matcher: the comprehension is (assigned to) the matcher's argument in g or is returned by g
+            par_assign = [x for x in own_nodes(g.node) if isinstance(x, ast.Assign) and x.value is nd and isinstance(x.targets[0], ast.Name)]
+            is_ret = any(isinstance(x, ast.Return) and x.value is not None and any(y is nd for y in ast.walk(x.value)) for x in own_nodes(g.node))
+            feeds = is_ret or any(isinstance(c, ast.Call) and any(M is h for s_ in ctx.cg.sites(g) if s_.node is c for h in s_.callees)
+                                  and c.args and isinstance(c.args[0], ast.Name) and par_assign and c.args[0].id == par_assign[0].targets[0].id
+                                  for c in own_nodes(g.node)) \
+                or any(isinstance(x, ast.Return) and par_assign and any(isinstance(y, ast.Name) and y.id == par_assign[0].targets[0].id for y in ast.walk(x.value or ast.Constant(value=None)))
+                       for x in own_nodes(g.node))
+            if not feeds:
+                continue
+            o = origin(g, R)
+            if o is None:
+                rep.note("K8: the collection %s the matcher's rows are created from could not be traced: not decided" % unparse(R)[:40])
+                continue
+            n += 1
+            rep.ob(RULE, o == "kept", nd, g, construct="rows of the matcher's graph: one per element of %s" % unparse(R)[:40],
+                   how="that collection is the kept-node set (nodes of the subgraph filtered with %s), possibly sorted / copied" % prune.name,
+                   witness=None if o == "kept" else "the vertices of the matcher's graph are %s, not the kept nodes: a kept atom without a kept "
+                   "neighbour is left out, keeps no double bond, and kekulize() still reports success" % o, nontrivial=True,
+                   key="vertices/%s" % ("kept" if o == "kept" else "other"))
+    if not n:
+        rep.note("K8: construction of the matcher's graph not recognised: not decided")
